@@ -6,7 +6,7 @@ use apollo_compiler::Schema;
 use serde_json::{json, Value as J};
 use std::str::FromStr;
 
-const SDL: &str = "type Q { f(x: Int, y: Int): Int g: Int } interface I { f(x: Int): Int } input N { f: Int g: Int } \
+const SDL: &str = "schema { query: Q } type Q { f(x: Int, y: Int): Int g: Int } interface I { f(x: Int): Int } input N { f: Int g: Int } \
 enum E { f V } union U = Q scalar S directive @d(x: Int) on FIELD directive @e on FIELD";
 
 fn project(c: &SchemaCoordinate) -> J {
